@@ -156,6 +156,7 @@ pub fn property() -> Property {
             signature: no_signature,
             essential: &["way_hidden_target", "way_not_a_tty", "way_hidden_multi", "way_removed_from_multi", "state_change_and_forced_draw", "finished_before_removal"],
             workers: w,
+            decode: None,
         })],
     }
 }
